@@ -2,6 +2,6 @@
 EXTENDS StringSource, Json
 Export == Done =>
    PrintT(<<"CASE", ToJson([unit |-> text.unit, reps |-> text.reps, kind |-> kind, chain |-> chain, mem |-> mem,
-                            obs |-> [j \in 1..Len(hist) |-> hist[j][1]], numLines |-> NumLines(Value), tailLines |-> TailLines(Value), headLines |-> HeadLines(Value),
+                            obs |-> [j \in 1..Len(hist) |-> hist[j][1]], numLines |-> NumLines(Value), tailLines |-> TailLines(Value), headLines |-> HeadLines(Value), firstLine |-> FirstLine(Value), onlyFirst |-> IsOnlyFirstLine(Value),
                             len |-> TextLen(Value), repr |-> repr])>>)
 =============================================================================
